@@ -59,6 +59,14 @@ CHECKS = {
                      'aligned positions (re-synchronisation within 1024*max), all key pairs',
                 note='re-synchronisation bound is probabilistic (<1e-33 per case under hash independence)',
                 technique='exhaustive bounded enumeration of inputs'),
+    'C01': dict(cat='exploration', ref='2/C01', engine='E3',
+                text='snapshot + restore of every tree of the menu (sizes on both sides of alignment/min/max/2*max, identical and '
+                     'suffix-sharing contents, non-ASCII / non-UTF-8 / spaced names) x 8 argument lists (repeats, overlaps, symlinks) at '
+                     'the default configuration, and every single deviation (concurrency 1/5, 4 more chunkers, every cipher x hash, 4 '
+                     'pre-existing target states) x reduced trees; pairs of deviations and 16 MiB read-piece crossings in thorough; '
+                     'oracle: exact file set, bytes, mtime_ns, returned paths',
+                note='a symlink argument is recorded under its resolved path (code behaviour); tmpfs scratch',
+                technique='exhaustive bounded enumeration of inputs and configurations'),
 }
 NOT_YET = {}
 
@@ -98,7 +106,7 @@ m = {
         {'name': 'E2', 'path': 'mc/hist.py', 'serves_properties': ['C02', 'C06', 'C07', 'C08'],
          'kind_free_text': 'explicit-state BFS over command histories; transitions run the real commands with fresh Repository objects'},
         {'name': 'E2+E1', 'path': 'mc/hist.py + mc/explore.py', 'serves_properties': ['C02'], 'kind_free_text': 'both'},
-        {'name': 'E3', 'path': 'mc/common.py (pmap) + per-check menus', 'serves_properties': ['C10', 'C11'],
+        {'name': 'E3', 'path': 'mc/common.py (pmap) + per-check menus', 'serves_properties': ['C01', 'C10', 'C11'],
          'kind_free_text': 'complete product enumeration of small menus, sharded over 16 processes'},
     ],
     'checks': checks,
